@@ -517,8 +517,13 @@ type replayFile struct {
 	Plans     []json.RawMessage `json:"plans"`
 }
 
+// sigClass: memory-corruption symptoms (crashes, faults) vary with heap layout between a batch
+// and a fresh process, so every crash signature belongs to one class; all other signatures are
+// their own class.
 func sigClass(sig string) string {
-	// violation class = signature up to the second '/' component
+	if strings.HasPrefix(sig, "crash/") {
+		return "crash"
+	}
 	return sig
 }
 
@@ -589,7 +594,7 @@ func (r *runner) minimise(p json.RawMessage, sig, variant string, budget int) (j
 	same := func(c json.RawMessage) bool {
 		runs++
 		x := r.replayPlan(c, variant)
-		return x != nil && x.Verdict == "violation" && x.Sig == sig
+		return x != nil && x.Verdict == "violation" && sigClass(x.Sig) == sigClass(sig)
 	}
 	cur := p
 	// 1. ops, per task, ddmin-style with halving chunk sizes
@@ -954,7 +959,7 @@ func doReplay(r *runner, prop, path string) int {
 	pl, _ := json.Marshal(map[string]interface{}{"plans": rf.Plans})
 	x := r.replayPlan(pl, variant)
 	fmt.Printf("replay: verdict=%s sig=%s\n%s\n", x.Verdict, x.Sig, x.Msg)
-	if x.Verdict == "violation" && x.Sig == rf.Signature {
+	if x.Verdict == "violation" && sigClass(x.Sig) == sigClass(rf.Signature) {
 		fmt.Printf("VIOLATION property=%s replay=%s\n", prop, path)
 		return 1
 	}
@@ -1054,14 +1059,21 @@ func finish(r *runner, prop, tier string, seed uint64, cfg propCfg, known []know
 		cand := withDirectives(v.Plan, v.Fired)
 		x := r.replayPlan(cand, v.variant)
 		final := cand
-		confirmed := x != nil && x.Verdict == "violation" && x.Sig == v.Sig
+		confirmed := x != nil && x.Verdict == "violation" && sigClass(x.Sig) == sigClass(v.Sig)
 		if !confirmed {
 			// try the seeded (hash-walk) form alone
 			x2 := r.replayPlan(v.Plan, v.variant)
-			if x2 != nil && x2.Verdict == "violation" && x2.Sig == v.Sig {
+			if x2 != nil && x2.Verdict == "violation" && sigClass(x2.Sig) == sigClass(v.Sig) {
 				confirmed = true
 				final = v.Plan
+				x = x2
 			}
+		}
+		if !confirmed && x != nil && x.Verdict == "violation" {
+			// a fresh process shows a different violation for the same plan: still a violation of
+			// this property (use-after-free symptoms depend on heap layout); report what replays
+			confirmed = true
+			v.Sig = x.Sig
 		}
 		if !confirmed {
 			got := "nothing"
@@ -1076,7 +1088,7 @@ func finish(r *runner, prop, tier string, seed uint64, cfg propCfg, known []know
 		pat := opPattern(mini)
 		// last confirmation run of the minimised file (fresh process)
 		xm := r.replayPlan(mini, v.variant)
-		if xm == nil || xm.Verdict != "violation" || xm.Sig != v.Sig {
+		if xm == nil || xm.Verdict != "violation" || sigClass(xm.Sig) != sigClass(v.Sig) {
 			mini = final
 			xm = x
 			pat = opPattern(mini)
